@@ -10,6 +10,7 @@ CONF = "/tmp/seedconfirm"
 det = json.load(open(os.path.join(V, "seeded", "detection.json"))) if os.path.exists(os.path.join(V, "seeded", "detection.json")) else {}
 outs = [(o, os.path.basename(o)) for o in sorted(glob.glob(os.path.join(SRC, "C??.out", "[ab]")))]
 outs += [(o, {"a": "c", "b": "d"}[os.path.basename(o)]) for o in sorted(glob.glob(os.path.join("/tmp/seed2", "C??.out", "[ab]")))]  # second, diversified round
+outs += [(o, {"a": "e", "b": "f"}[os.path.basename(o)]) for o in sorted(glob.glob(os.path.join("/tmp/seed3", "C??.out", "[ab]")))]  # third round: the remaining properties
 for out, x in outs:
     pid = os.path.basename(os.path.dirname(out))[:3]
     sid = pid + x
@@ -37,9 +38,17 @@ for out, x in outs:
         "summary": (first[0][:400] if first else ""),
         "needs_to_manifest": "see notes.md (written by the author of the change, who saw only the property text)",
         "confirmed_by_me": conf,
-        "round": 2 if x in "cd" else 1,
+        "round": 3 if x in "ef" else (2 if x in "cd" else 1),
         "confirmation_procedure": "scratch worktree of /repo HEAD outside /repo and /verif: demo on the original (must exit 0), git apply patch.diff, demo (must exit != 0), full pinned test suite (51 tests must pass; a single failure of an unseeded statistical t-test was re-run in isolation), worktree removed",
         "caught_by": det.get(sid, {}),
     }
     json.dump(meta, open(os.path.join(dst, "meta.json"), "w"), indent=1)
     print(sid, conf.get("suite_with_change", "?")[:30], list(meta["caught_by"]))
+# refresh "caught_by" of every collected seed from the latest detection.json
+for d in sorted(glob.glob(os.path.join(V, "seeded", "C???"))):
+    mf = os.path.join(d, "meta.json")
+    if os.path.exists(mf):
+        meta = json.load(open(mf))
+        if det.get(meta["id"]) and meta.get("caught_by") != det[meta["id"]]:
+            meta["caught_by"] = det[meta["id"]]
+            json.dump(meta, open(mf, "w"), indent=1)
